@@ -383,7 +383,7 @@ func runScen(s Scen) (res result) {
 			}
 		}
 	}
-	if k, d := netsim.Audit("c11", t, V.CM); k != "" && res.fail == nil {
+	if k, d := netsim.AuditNode("c11", t, v0, V); k != "" && res.fail == nil {
 		res.fail = &failure{k, fmt.Sprintf("after the Byzantine peer's turn: %s (attack %s/%s)", d, s.Attack, s.Field)}
 	}
 	if os.Getenv("VERIF_DEBUG") == "2" {
@@ -458,7 +458,7 @@ func runScen(s Scen) (res result) {
 		if bs := W.PS.Bans(); len(bs) > 0 {
 			fail("c11-honest-victim-banned-downstream", "the honest node behind the victim (its only peer) banned the victim while the victim was under attack %s/%s: %s", s.Attack, s.Field, bs[0].Reason)
 		}
-		if k, d := netsim.Audit("c11", t, W.CM); k != "" {
+		if k, d := netsim.AuditNode("c11", t, v0, W); k != "" {
 			fail(k, "downstream node: %s (attack %s/%s)", d, s.Attack, s.Field)
 		}
 		if ps := W.Panics(); len(ps) > 0 {
@@ -468,7 +468,7 @@ func runScen(s Scen) (res result) {
 			fail("c11-downstream-stalled", "the victim reached the honest tip but the honest node behind it (whose only peer is the victim) is still on tip %v after 15 s (attack %s/%s)", W.CM.Tip(), s.Attack, s.Field)
 		}
 	}
-	if k, d := netsim.Audit("c11", t, V.CM); k != "" {
+	if k, d := netsim.AuditNode("c11", t, v0, V); k != "" {
 		fail(k, "%s (attack %s/%s)", d, s.Attack, s.Field)
 	}
 	if k, d := netsim.AuditTips("c11", t, v0, V.Tips()); k != "" {
